@@ -58,6 +58,7 @@ PROP = dict(
     id="C32",
     engines=["c32"],
     go_tags=["c32"],
+    gen_files={"MM/Gen/C32.lean": "c32"},
     lean_modules=["MM.Props.C32"],
     extract_files={"MM/Gen/LockC32.lean": {"cmd": ["go", "run", "{VERIF}/tools/lockshape.go", "LockC32",
         "{REPO}/internal/peer/manager.go",
@@ -88,7 +89,8 @@ PROP = dict(
         "MM/Model/C32.lean: atomic steps = regions under Manager.mu plus the callback that follows; Disconnect's delete-then-close is one step",
         "ghost tags (which connection a route/relay was learned through) exist only in the model and in the spec's bookkeeping",
         "in-memory transport + scripted remote ends (real handshake, keepalive answers only); routes/relays are inserted directly into the agent's tables",
-        "a read loop that is between two reads when its connection is closed exits without a teardown; this race is not modelled (harness: rerun)",
+        "a read loop that is between two reads when its connection is closed exits without a teardown: modelled (readSilent) and produced deterministically by holding a frame in flight in the transport; the un-scripted occurrence of the same race is kept out by waiting until the loop is blocked in Read",
+        "whether an unanswered keepalive leads to a teardown is MEASURED on the real manager at every run (MM/Gen/C32.lean: keepaliveTimeoutFires) and selects the model's answer for `ktimeout`; on the pinned code it does not (WriteFrame refreshes lastActivity) — a liveness defect outside C32's statement",
         "a case that disagrees with the model is re-run up to twice and must disagree again to count (real keepalive timers)",
     ],
     assumptions=[
